@@ -111,7 +111,13 @@ def make_field(rng, n, n_pol):
     else:
         s = np.exp(2j * np.pi * rng.integers(0, n) * t / n) * (1 + 0.3 * rng.normal(0, 1, shape))
     s = s * 10 ** rng.uniform(-4, 0)
+    dt_kind = int(rng.integers(8))
+    if dt_kind == 0:
+        s = np.real(s).copy()                              # real-dtype field
+    elif dt_kind == 1:
+        s = rng.integers(-9, 10, shape)                    # integer-dtype field
     if n_pol == 2 and rng.integers(4) == 0:
+        s = s.astype(complex) if s.dtype.kind in 'iu' else s
         s[1] = s[1] * 0.01
     return T.optical_signal(s)
 
